@@ -802,3 +802,295 @@ func TestKnown_C22ConcurrentSameNonce(t *testing.T) {
 		}
 	}
 }
+
+// ---------------------------------------------------------------- eth nonce clause along a chain history
+
+// The current nonce of an eth-signed sender is chain state: the evm executor counts the sender's executed
+// transactions, rpc answers EventGetEvmNonce from that state, and evmTxNonceCheck refuses nonce < that answer. So it
+// ADVANCES with every connected block by the number of the sender's eth-signed transactions in it (pooled here or
+// not) and goes back when the block is disconnected. A history case keeps that state in the fake chain (blocks with
+// their transactions; the rpc fake answers base + count over the blocks) and interleaves, on one pool: eth
+// submissions with nonces below / at / above the sender's current nonce, plain submissions, add-block (the
+// senders' next nonces, taken from the pool where pooled, otherwise "seen elsewhere"), del-block of the tip, small
+// reorganisations (chain ahead of or in step with the events), and evictions that leave the pool empty or holding
+// other senders only. Oracle per eth submission, from the property text and the scripted chain state at that moment:
+// nonce below the current nonce, or equal to the nonce of a pooled transaction of the sender => it must not enter.
+// Control: otherwise it must be admitted (else inconclusive: the generator's picture of the state is wrong).
+type vfNonceBlock struct {
+	blk *types.Block
+	eth map[int]int // eth sender -> number of its eth-signed transactions in the block
+}
+
+func TestPropAdmissionNonceHistory(t *testing.T) {
+	defer lib.Flush()
+	vfInitSenders()
+	slow := 0
+	rapid.Check(t, func(t *rapid.T) {
+		intn := func(n int, label string) int { return rapid.IntRange(0, n-1).Draw(t, label) }
+		e := vfNewEnv(vfOpts{cap: 200, perAcc: 100, maxLast: 10})
+		defer e.close()
+		base := map[int]int64{}
+		for s := 4; s <= 6; s++ {
+			base[s] = int64(intn(3, "baseNonce"))
+		}
+		var chain []*vfNonceBlock
+		var history []map[string]interface{}
+		height, btime, uniq := vfBaseHeight, vfBaseTime, int64(0)
+		cur := func(s int) int64 {
+			n := base[s]
+			for _, b := range chain {
+				n += int64(b.eth[s])
+			}
+			return n
+		}
+		publish := func() { // the fake peers answer from the chain state
+			e.chain.mu.Lock()
+			for s := 4; s <= 6; s++ {
+				e.chain.nonce[vfSenders[s].addr] = cur(s)
+			}
+			e.chain.onChain = map[string]bool{}
+			for _, b := range chain {
+				for _, tx := range b.blk.Txs {
+					e.chain.onChain[string(tx.Hash())] = true
+				}
+			}
+			e.chain.mu.Unlock()
+			e.chain.setHeader(height, btime)
+		}
+		publish()
+		logEv := func(kv ...interface{}) {
+			ev := map[string]interface{}{}
+			for i := 0; i+1 < len(kv); i += 2 {
+				ev[kv[i].(string)] = kv[i+1]
+			}
+			history = append(history, ev)
+		}
+		fail := func(format string, a ...interface{}) {
+			lib.Violation(t, "C22", "TestPropAdmissionNonceHistory", map[string]interface{}{"baseNonce": base, "history": history}, format, a...)
+		}
+		build := func(s int, nonce int64) *types.Transaction {
+			uniq++
+			return vfBuildTx(e.cfg, vfTxSpec{Sender: s, To: int(uniq % 3), Nonce: nonce, Fee: vfFee + uniq})
+		}
+		pooledNonces := func(s int) map[int64]*types.Transaction {
+			m := map[int64]*types.Transaction{}
+			for _, it := range e.entries() {
+				if it.Value.From() == vfSenders[s].addr {
+					m[it.Value.Nonce] = it.Value
+				}
+			}
+			return m
+		}
+		// newBlock builds the next block: for some eth senders their next one or two nonces, plus plain transactions
+		newBlock := func(h int64, nonceAt func(int) int64) *vfNonceBlock {
+			b := &vfNonceBlock{blk: &types.Block{Height: h}, eth: map[int]int{}}
+			for s := 4; s <= 6; s++ {
+				if intn(2, "blkHasSender") == 0 {
+					continue
+				}
+				have := pooledNonces(s)
+				for k, n := 0, 1+intn(2, "blkSenderTxs"); k < n; k++ {
+					nonce := nonceAt(s) + int64(k)
+					tx := have[nonce]
+					if tx == nil || intn(4, "blkElsewhere") == 0 {
+						tx = build(s, nonce) // went through another node
+					}
+					b.blk.Txs = append(b.blk.Txs, tx)
+					b.eth[s]++
+				}
+			}
+			for _, it := range e.entries() {
+				if !types.IsEthSignID(it.Value.GetSignature().GetTy()) && intn(2, "blkPlain") == 0 {
+					b.blk.Txs = append(b.blk.Txs, it.Value)
+				}
+			}
+			return b
+		}
+		changed := map[int]bool{} // senders whose current nonce moved by a block event since their last submission
+		poolClass := func(b *vfNonceBlock) {
+			items := e.entries()
+			mine := false
+			for _, it := range items {
+				for s := range b.eth {
+					if it.Value.From() == vfSenders[s].addr {
+						mine = true
+					}
+				}
+			}
+			switch {
+			case len(items) == 0:
+				lib.Class("nonce_block_event_with_pool_empty")
+			case !mine:
+				lib.Class("nonce_block_event_with_pool_holding_other_senders_only")
+			default:
+				lib.Class("nonce_block_event_with_pool_holding_the_senders_txs")
+			}
+		}
+		addBlock := func(b *vfNonceBlock, op string) {
+			poolClass(b)
+			e.cast(types.EventAddBlock, &types.BlockDetail{Block: b.blk})
+			logEv("op", op, "height", b.blk.Height, "ethTxs", b.eth, "txs", len(b.blk.Txs))
+			for s := range b.eth {
+				changed[s] = true
+			}
+		}
+		delBlock := func(b *vfNonceBlock, op string) {
+			poolClass(b)
+			e.cast(types.EventDelBlock, &types.BlockDetail{Block: b.blk})
+			logEv("op", op, "height", b.blk.Height, "ethTxs", b.eth)
+			for s := range b.eth {
+				changed[s] = true
+			}
+		}
+		grow := func() {
+			height++
+			btime += int64(intn(3, "dt"))
+			b := newBlock(height, cur)
+			chain = append(chain, b)
+			publish()
+			addBlock(b, "addBlock")
+		}
+		judged, nontrivial := 0, false
+		for i, n := 0, 4+intn(24, "events"); i < n; i++ {
+			switch op := intn(100, "op"); {
+			case op < 42: // eth submission around the current nonce
+				s := 4 + intn(3, "ethSender")
+				c := cur(s)
+				nonce := c + []int64{-2, -1, -1, -1, 0, 0, 0, 1, 1, 2}[intn(10, "delta")]
+				if nonce < 0 {
+					nonce = 0
+				}
+				_, pending := pooledNonces(s)[nonce]
+				tx := build(s, nonce)
+				before := vfHashSet(e.entries())
+				start := time.Now()
+				ok, msg := e.submit(tx)
+				if time.Since(start) > 1500*time.Millisecond { // the pool's own 2 s nonce timeout may have fired
+					if slow++; slow > 20 {
+						lib.Inconclusive("EventTx repeatedly took longer than 1.5 s")
+					}
+					lib.Class("slow_submission_skipped")
+					continue
+				}
+				entered := ok || (!before[string(tx.Hash())] && vfHashSet(e.entries())[string(tx.Hash())])
+				logEv("op", "submit", "sender", s, "nonce", nonce, "currentNonce", c, "pendingSameNonce", pending, "ok", ok, "msg", msg)
+				judged++
+				switch {
+				case nonce < c && entered:
+					fail("eth sender %d: nonce %d admitted although the sender's current nonce is %d (reply %q)", s, nonce, c, msg)
+				case pending && entered:
+					fail("eth sender %d: nonce %d admitted although a pooled transaction of the sender carries it", s, nonce)
+				case nonce >= c && !pending && !entered:
+					lib.Inconclusive("C22 nonce history control: nonce %d >= current %d, nothing pending, yet rejected: %s (history %v)", nonce, c, msg, history)
+				}
+				switch {
+				case nonce < c:
+					lib.Class("nonce_below_current_rejected")
+					if changed[s] {
+						lib.Class("nonce_below_current_after_block_moved_it")
+						nontrivial = true
+					}
+				case pending:
+					lib.Class("nonce_pending_rejected")
+				default:
+					lib.Class("nonce_at_or_above_current_admitted")
+					if changed[s] {
+						lib.Class("nonce_at_or_above_current_after_block_moved_it")
+					}
+				}
+				changed[s] = false
+			case op < 50: // plain submission
+				if ok, msg := e.submit(build(intn(3, "plainSender"), 9000+uniq)); !ok {
+					lib.Inconclusive("C22 nonce history fixture: plain transaction rejected: %s", msg)
+				}
+				logEv("op", "submitPlain")
+			case op < 74: // ordinary growth
+				grow()
+			case op < 81: // the tip is disconnected
+				if len(chain) == 0 {
+					continue
+				}
+				b := chain[len(chain)-1]
+				chain = chain[:len(chain)-1]
+				height--
+				publish()
+				delBlock(b, "delBlock")
+			case op < 88: // reorganisation of the top 1..2 blocks; the chain side is finished first (ahead) or moves in step
+				if len(chain) == 0 {
+					continue
+				}
+				d := 1 + intn(vfMin(2, len(chain)), "reorgDepth")
+				old := append([]*vfNonceBlock(nil), chain[len(chain)-d:]...)
+				ahead := intn(2, "reorgAhead") == 0
+				chain = chain[:len(chain)-d]
+				height -= int64(d)
+				var fresh []*vfNonceBlock
+				for j, l := 0, 1+intn(d+1, "reorgLen"); j < l; j++ {
+					height++
+					nb := newBlock(height, cur)
+					chain = append(chain, nb)
+					fresh = append(fresh, nb)
+				}
+				lib.Class("nonce_reorg")
+				if ahead { // add-blocks (high priority) overtake, every query already sees the new branch
+					publish()
+					for _, nb := range fresh {
+						addBlock(nb, "reorg-addBlock")
+					}
+					for k := d - 1; k >= 0; k-- {
+						delBlock(old[k], "reorg-delBlock")
+					}
+				} else {
+					full := chain
+					chain = append(append([]*vfNonceBlock(nil), full[:len(full)-len(fresh)]...), old...)
+					hh := height
+					height = old[d-1].blk.Height
+					for k := d - 1; k >= 0; k-- {
+						chain = chain[:len(chain)-1]
+						height--
+						publish()
+						delBlock(old[k], "reorg-delBlock")
+					}
+					for _, nb := range fresh {
+						chain = append(chain, nb)
+						height = nb.blk.Height
+						publish()
+						addBlock(nb, "reorg-addBlock")
+					}
+					chain, height = full, hh
+				}
+				publish()
+			case op < 95: // everything is evicted: the next block event meets an empty pool
+				req := &types.TxHashList{}
+				for _, it := range e.entries() {
+					req.Hashes = append(req.Hashes, it.Value.Hash())
+				}
+				if len(req.Hashes) > 0 {
+					e.call(types.EventDelTxList, req)
+					logEv("op", "evictAll", "n", len(req.Hashes))
+				}
+				if intn(2, "blockOnEmptyPool") == 0 {
+					grow()
+				}
+			default: // the eth transactions are evicted: the pool holds other senders only
+				req := &types.TxHashList{}
+				for _, it := range e.entries() {
+					if types.IsEthSignID(it.Value.GetSignature().GetTy()) {
+						req.Hashes = append(req.Hashes, it.Value.Hash())
+					}
+				}
+				if len(req.Hashes) > 0 {
+					e.call(types.EventDelTxList, req)
+					logEv("op", "evictEth", "n", len(req.Hashes))
+				}
+				if intn(2, "blockOnOthersOnly") == 0 {
+					grow()
+				}
+			}
+		}
+		lib.EvalN(judged)
+		if nontrivial {
+			lib.NonTrivialCase(map[string]interface{}{"baseNonce": base, "history": history})
+		}
+	})
+}
